@@ -29,7 +29,7 @@ func NewTLVByString(tag uint16, value string) TLV {
 }
 
 func (t TLV) Bytes() []byte {
-	b := make([]byte, t.length+4)
+	b := make([]byte, int(t.length)+4)
 	binary.BigEndian.PutUint16(b[0:2], t.tag)
 	binary.BigEndian.PutUint16(b[2:4], t.length)
 	copy(b[4:], t.value)
